@@ -276,7 +276,7 @@ Definition reduce_uncommitted_size (r : raft) (s : N) : raft :=
 Fixpoint stamp (term next : N) (es : list entry) : list entry :=
   match es with
   | [] => []
-  | e :: rest => mkEntry term next (e_type e) (e_has_type e) (e_data e) (e_leave e) :: stamp term (next + 1) rest
+  | e :: rest => mkEntry term next (e_type e) (e_has_type e) (e_data e) (e_has_data e) (e_leave e) :: stamp term (next + 1) rest
   end.
 
 (* appendEntry *)
@@ -305,7 +305,7 @@ Definition become_pre_candidate (r : raft) : res raft :=
   let r := set_r_trk r (reset_votes (r_trk r)) in
   Ok (set_r_state (set_r_lead r NoneId) StatePreCandidate).
 
-Definition empty_entry : entry := mkEntry 0 0 EntryNormal false [] false.
+Definition empty_entry : entry := mkEntry 0 0 EntryNormal false [] false false.
 
 Definition become_leader (r : raft) : res raft :=
   if state_type_eqb (r_state r) StateFollower then Panic PFollowerToLeader else
@@ -544,7 +544,7 @@ Fixpoint prop_gate (r : raft) (li : N) (i : N) (es : list entry) : raft * list e
         let failed := alreadyPending || (alreadyJoint && negb wantsLeave) || (negb alreadyJoint && wantsLeave) in
         if failed && negb (r_disable_cc_validation r) then
           let '(r', rest') := prop_gate r li (i + 1) rest in
-          (r', mkEntry 0 0 EntryNormal true [] false :: rest')
+          (r', mkEntry 0 0 EntryNormal true [] false false :: rest')
         else
           let '(r', rest') := prop_gate (set_r_pending_conf_index r (li + i + 1)) li (i + 1) rest in
           (r', e :: rest')
@@ -746,7 +746,7 @@ Section StepGen.
 Variable step_rec : raft -> message -> res (raft * err).
 
 Definition leave_joint_prop : message :=
-  mkMsg MsgProp 0 0 0 0 0 [mkEntry 0 0 EntryConfChangeV2 true [] true] 0 0 None false 0 [].
+  mkMsg MsgProp 0 0 0 0 0 [mkEntry 0 0 EntryConfChangeV2 true [] false true] 0 0 None false 0 [].
 
 (* appliedTo *)
 Definition applied_to (r : raft) (index size : N) : res raft :=
